@@ -248,6 +248,13 @@ def wrap_paragraph_lines(
             line = line.strip()
         lines.append(line)
 
+    if is_markdown:
+        # A literal backslash that lands at the end of a wrapped line would be read as a hard
+        # line break: write it as an escaped backslash there.
+        for i, line in enumerate(lines[:-1]):
+            if (len(line) - len(line.rstrip("\\"))) % 2 == 1:
+                lines[i] = line + "\\"
+
     return lines
 
 
